@@ -21,6 +21,7 @@ pub mod c19;
 pub mod c20;
 pub mod genhist;
 pub mod objops;
+pub mod transcript;
 
 pub fn dispatch(cmd: &str, o: &Opts) -> i32 {
     match cmd {
@@ -44,6 +45,7 @@ pub fn dispatch(cmd: &str, o: &Opts) -> i32 {
         "c18-child" => c18::child(o),
         "c19" => c19::run(o),
         "c20" => c20::run(o),
+        "transcript" => transcript::run(o),
         "selfcheck" => match common::selfcheck(o) {
             Ok(n) => {
                 println!("selfcheck ok: {} reference vectors reproduced by oracle O1", n);
